@@ -31,11 +31,16 @@ type Alt struct {
 // status) or "plain" (rejected with a plain error).
 type Vec map[string]string
 
-func isReject(o string) bool { return o == "plain" || strings.HasPrefix(o, "rej") }
+func isReject(o string) bool { return isPlain(o) || strings.HasPrefix(o, "rej") }
+
+// isPlain: rejected with an error that carries no status. "plainctx" and "plaindl" are such errors that wrap the
+// standard library's context.Canceled / context.DeadlineExceeded (a credentials backend that timed out): a
+// rejection like any other.
+func isPlain(o string) bool { return o == "plain" || o == "plainctx" || o == "plaindl" }
 
 // rejStatus is the status the rejecting scheme's error must be answered with.
 func rejStatus(o string) int {
-	if o == "plain" {
+	if isPlain(o) {
 		return 500
 	}
 	n := 0
@@ -44,7 +49,7 @@ func rejStatus(o string) int {
 }
 
 func rejMessage(scheme, o string) string {
-	if o == "plain" {
+	if isPlain(o) {
 		return "plain-" + scheme
 	}
 	return "rej-" + scheme
